@@ -248,6 +248,33 @@ def h_size(ctx, kind, B):
     return "refused" if st == "exc" else "accepted"
 
 
+def h_size_reserved(ctx, B):
+    """The eleventh instance kind: what a reserved instance byte decodes to (ReservedInstance) must refuse a
+    frame of the wrong size like every other kind, and write back the same byte into a 24-bit frame."""
+    b = ctx.fresh("b", 0, 255)
+    ctx.assume(E.or_(E.between(0x40, b, 0x5F), E.between(0xE0, b, 0xFB)))
+    st, inst = call(A.instance_from_frame, F.ForwardFrame(24, b << 8))
+    if st == "exc" or inst is None:
+        ctx.fail("reserved instance byte did not decode: %r" % (inst,), key="size/reserved-decode")
+        return "no-object"
+    w = ctx.fresh("w", 1, B)
+    ctx.assume(E.ne(w, 24))
+    x = ctx.fresh("x", 0, (1 << B) - 1)
+    ctx.assume(E.lt(x, 1 << w))
+    f = F.ForwardFrame(w, x)
+    st, r = call(inst.add_to_frame, f)
+    ctx.prove(st == "exc" and isinstance(r, IncompatibleFrame),
+              "wrong-size frame not refused with IncompatibleFrame: %r" % (r,), key="size/refused:" + type(inst).__name__)
+    ctx.prove(E.and_(E.eq(f.__len__(), w), E.eq(f.as_integer, x)), "refused frame was modified",
+              key="size/unchanged:" + type(inst).__name__)
+    y = ctx.fresh("y", 0, 0xFFFFFF)
+    g = F.ForwardFrame(24, y)
+    st, r = call(inst.add_to_frame, g)
+    ctx.prove(st == "ok" and E.eq(g.as_integer, (y & 0xFF00FF) | (b << 8)),
+              "reserved instance did not write back exactly its byte", key="size/reserved-write")
+    return type(inst).__name__
+
+
 def h_eq(ctx, i, j, which):
     kinds = (GEAR + DEVICE) if which == "addr" else \
         ([(n, c, 31) for n, c, _ in INST] + [(n, c, None) for n, c, _ in UNINST]
@@ -284,6 +311,7 @@ def cases(tier):
         cs.append(Case("inst-write-%d" % k, h_inst_write, {"kind": k}))
     for k in range(len(GEAR) + len(DEVICE) + len(INST) + len(UNINST)):
         cs.append(Case("size-%d" % k, h_size, {"kind": k, "B": B}, width=128))
+    cs.append(Case("size-reserved", h_size_reserved, {"B": B}, width=128))
     for i in range(8):
         for j in range(8):
             cs.append(Case("eq-addr-%d-%d" % (i, j), h_eq, {"i": i, "j": j, "which": "addr"}))
